@@ -206,3 +206,36 @@ def describe(p):
     def kinds(t):
         return [] if t[0] == "leaf" else [t[0]] + [k for c in t[1:] for k in kinds(c)]
     return ["leaves=%d" % len(p["outs"])] + sorted(set("has_" + k for k in kinds(p["tree"])))
+
+
+def extra(stats, tier, seed):
+    """API-level: a RE-ENTRANT cancel.  A done-callback of the input cancels the output while the output's own cancel() is
+    cancelling that input: cancel() must still return a bool and not raise."""
+    import drive
+    from more_executors.futures import f_map, f_flat_map, f_proxy, f_nocancel, f_timeout, f_return
+    known_patterns = set(k["pattern"] for k in drive.load_known(PROP))
+
+    def viol(what, pattern, detail=None):
+        v = {"what": what, "pattern": pattern, "detail": detail, "case": {"params": {}, "chooser": "none", "cseed": 0, "origin": "api"}}
+        if pattern in known_patterns:
+            stats.known.setdefault(pattern, v)
+        else:
+            stats.violations.append(v)
+    makers = [("f_map", lambda u: f_map(u, lambda x: x)), ("f_flat_map", lambda u: f_flat_map(u, lambda x: f_return(x))),
+              ("f_proxy", lambda u: f_proxy(u))]
+    with det.atomic():
+        for nm, mk in makers:
+            u = Future()
+            box = {}
+            u.add_done_callback(lambda f, box=box: box["p"].cancel())
+            p = mk(u)
+            box["p"] = p
+            stats.add([[2, 21, len(nm)]], True, None, ["api:reentrant-cancel"])
+            try:
+                r = p.cancel()
+            except BaseException as e:
+                viol("%s(u).cancel() with a callback on u that cancels the output again raised %s: %s" % (nm, type(e).__name__, e),
+                     "proto:reentrant-cancel-raises", nm)
+                continue
+            if r is not True or not p.cancelled():
+                viol("%s(u).cancel() (re-entrant) returned %r, output %s" % (nm, r, p._state), "proto:reentrant-cancel", nm)
